@@ -139,3 +139,28 @@ package store
 //@   modifies s.index.$pending, s.index.Primary.$pending, s.index.Primary.$failed, s.freelist.$pending
 //@   assert at before call freelist.FreeList.Flush#0: @D1-index-before-freelist !s.index.$pending && !s.index.Primary.$pending
 //@   ensures @committed err == nil ==> !s.index.$pending && !s.index.Primary.$pending && !s.freelist.$pending
+
+// translateIndex (C09, C17): every record of the old index is read through the iterator and
+// re-inserted with the same location into the new index; the old index files are replaced
+// only after the iteration has reported done without error and both indexes were closed
+// without error; both indexes are closed on every path.
+//@ func translateIndex(ctx context.Context, indexPath string, primary primary.PrimaryStorage, indexSizeBits uint8, indexFileSize uint32) (err error)  property C09 C17
+//@   requires primary != nil && (!primary.$pending || primary.$failed)
+//@   modifies ctx.$done, fp(FC), heap("/store/index.")
+//@   ghost var gdone bool = false
+//@   ghost var gclosed int = 0
+//@   ghost var gold int = 0
+//@   ghost var gnew int = 0
+//@   ghost at after call index.Iterator.Next#0: gdone = ($r1 && $r2 == nil)
+//@   ghost var goldref *index.Index = ptr(index.Index, 0)
+//@   ghost var gnewref *index.Index = ptr(index.Index, 0)
+//@   ghost at after call index.Open#0: gold = ite($r1 == nil, 1, 0)
+//@   ghost at after call index.Open#0: goldref = $r0
+//@   ghost at after call index.Open#1: gnew = ite($r1 == nil, 1, 0)
+//@   ghost at after call index.Open#1: gnewref = $r0
+//@   assert at before call index.Index.Put#0: @C09-same-location $a0 == newIndex && $a2 == rec.Block
+//@   assert at before call index.MoveFiles#0: @C09-swap-only-after-complete-iteration gdone && event("call:index.Index.Put") >= 0
+//@   assert at before call index.MoveFiles#0: @C09-swap-after-both-closed newIndex.$closed && oldIndex.$closed
+//@   internal ensures @C17-old-index-closed gold == 1 ==> goldref.$closed
+//@   internal ensures @C17-new-index-closed gnew == 1 ==> gnewref.$closed
+//@   loop 0 invariant oldIndex != nil && newIndex != nil && fresh(oldIndex) && fresh(newIndex) && oldIndex != newIndex && gold == 1 && gnew == 1 && goldref == oldIndex && gnewref == newIndex && (oldIndex.gcStop == nil || fresh(oldIndex.gcStop)) && (oldIndex.gcDone == nil || fresh(oldIndex.gcDone)) && (newIndex.gcStop == nil || fresh(newIndex.gcStop)) && (newIndex.gcDone == nil || fresh(newIndex.gcDone)) && fresh(ticker.C) && iter != nil && fresh(iter) && iter.index == oldIndex && newIndex.Primary == primary && ticker != nil && (!primary.$pending || primary.$failed)
